@@ -374,25 +374,7 @@ def check_walks(rep, fm):
                           "sub-directory is opened as a PEL file outside the per-file barrier" % e.data[0], node=e.node)
 
 
-def check_decoder_prints(rep, prog, rule="C09.R2.stdout-discipline"):
-    """who-may-print: stdout writes outside the CLI reporting functions"""
-    # evidence of reachability / deadness from interpreting every section decoder
-    from .c01 import run_sectionfun, DISPATCH, HEXDUMP_ONLY
-    executed_nodes = set()
-    interpreted_funcs = set()
-    for sid in list(DISPATCH) + HEXDUMP_ONLY[:1] + [0x5A5A]:
-        I, st, out = run_sectionfun(prog, sid, True)
-        for e in I.events:
-            interpreted_funcs.add(e.func)
-            if e.kind in ("print", "exit", "extcall", "methcall"):
-                executed_nodes.add(id(e.node))
-    # what a file being decoded can execute: everything the (opaque) per-file decode entry points may call, by the
-    # over-approximate name-based call graph, plus every dynamically imported plug-in entry point
-    graph = effects.call_graph(prog)
-    roots = set(DECODERS) | {q for q in graph if q.split(".")[-1] in ("parseUDToJson", "parseSRCToJson")}
-    decode_side = effects.reachable(graph, roots)
-    rep.count("functions a per-file decode may reach (call graph)", len(decode_side))
-    rep.floor("decode-side functions", len(decode_side), 60)
+def check_no_stream_redirection(rep, prog, rule):
     # nobody re-points the process-wide streams: a decode that fails between "redirect" and "restore" leaves every later
     # document on the wrong stream (and even a balanced redirection hides what the CLI prints meanwhile)
     import ast as _ast
@@ -422,6 +404,28 @@ def check_decoder_prints(rep, prog, rule="C09.R2.stdout-discipline"):
                                  "wrong stream whenever the code between redirection and restoration fails or prints" % (m.rel, node.lineno), node=node)
                         break
     rep.count("stream redirections", nredir)
+
+
+def check_decoder_prints(rep, prog, rule="C09.R2.stdout-discipline"):
+    """who-may-print: stdout writes outside the CLI reporting functions"""
+    # evidence of reachability / deadness from interpreting every section decoder
+    from .c01 import run_sectionfun, DISPATCH, HEXDUMP_ONLY
+    executed_nodes = set()
+    interpreted_funcs = set()
+    for sid in list(DISPATCH) + HEXDUMP_ONLY[:1] + [0x5A5A]:
+        I, st, out = run_sectionfun(prog, sid, True)
+        for e in I.events:
+            interpreted_funcs.add(e.func)
+            if e.kind in ("print", "exit", "extcall", "methcall"):
+                executed_nodes.add(id(e.node))
+    # what a file being decoded can execute: everything the (opaque) per-file decode entry points may call, by the
+    # over-approximate name-based call graph, plus every dynamically imported plug-in entry point
+    graph = effects.call_graph(prog)
+    roots = set(DECODERS) | {q for q in graph if q.split(".")[-1] in ("parseUDToJson", "parseSRCToJson")}
+    decode_side = effects.reachable(graph, roots)
+    rep.count("functions a per-file decode may reach (call graph)", len(decode_side))
+    rep.floor("decode-side functions", len(decode_side), 60)
+    check_no_stream_redirection(rep, prog, rule)
     n = 0
     for cs in effects.call_sites(prog):
         name = cs.name or ""
@@ -475,3 +479,10 @@ def run(rep, prog, thorough):
     from .c05 import decoder_runs
     from .c19 import check_decode_state
     check_decode_state(rep, prog, decoder_runs(prog))
+    # a file whose headers do not decode is counted / listed / shown by no mode: count, list and all apply the same
+    # PH -> UH -> considerPEL pipeline (rule shared with C08)
+    from .c08 import check_pipelines
+    cfgs = [e.data[1] for e in fm.events if e.kind == "new" and e.data[0] == "pel.peltool.config.Config"]
+    if not cfgs:
+        raise AnalysisError("main() does not build a Config")
+    check_pipelines(rep, prog, fm, cfgs[0])
